@@ -21,6 +21,8 @@ def ev(kind, n=0, tag=0):
         return InotifyEvent(1, C.IN_CREATE, 0, b"c%d" % tag, ROOT + b"/c%d" % tag)
     if kind == "I":
         return InotifyEvent(2, C.IN_IGNORED, 0, b"", ROOT + b"/sub")
+    if kind == "S":   # the watched root itself was deleted: the reader stops after the batch this record is in
+        return InotifyEvent(1, C.IN_DELETE_SELF, 0, b"", ROOT)
     raise ValueError(kind)
 
 
@@ -127,7 +129,7 @@ def end_to_end(seq, cuts):
         buf._inotify = FakeInotify(batches)
         t = threading.Thread(target=buf.run)
         t.start()
-        while buf._inotify.batches:
+        while buf._inotify.batches and t.is_alive():
             realtime.sleep(0.002)
         realtime.sleep(0.02)
         buf._stopped_event.set()
@@ -142,6 +144,14 @@ def end_to_end(seq, cuts):
         buf._queue.close()
         pr = []
         flat = [c for g in got for c in (g if isinstance(g, tuple) else (g,))]
+        # the reader stops after the batch that holds the root's IN_DELETE_SELF: everything up to the end of THAT batch is owed
+        owed, stop = [], False
+        for b in ([events[i:j] for i, j in zip([0] + sorted(c for c in cuts if 0 < c < len(events)), sorted(c for c in cuts if 0 < c < len(events)) + [len(events)])]):
+            if stop:
+                break
+            owed.extend(b)
+            stop = any(e.is_delete_self for e in b)
+        events = owed
         expected = [e for e in events if not e.is_ignored]
         for e in expected:
             c = sum(1 for x in flat if x is e)
@@ -199,9 +209,9 @@ def main():
                     bat.fail("C08.group-events", pr[0], {"kind": "group", "spec": [list(x) for x in spec], "preload": [list(x) for x in pre], "problems": pr[:2]}, "InotifyBuffer._group_events")
     seqs = []
     for n in range(1, 5):
-        for spec in itertools.product(ALPHA + [("I", 0)], repeat=n):
-            # each cookie at most one FROM and one TO, FROM first (E8)
-            ok = True
+        for spec in itertools.product(ALPHA + [("I", 0), ("S", 0)], repeat=n):
+            # each cookie at most one FROM and one TO, FROM first; the root is deleted at most once (E8)
+            ok = sum(1 for x in spec if x == ("S", 0)) <= 1
             for c in (1, 2):
                 f = [i for i, x in enumerate(spec) if x == ("F", c)]
                 t = [i for i, x in enumerate(spec) if x == ("T", c)]
